@@ -342,3 +342,14 @@ def reaching_definitions(fn_node, name, use, pm):
                         kept.append(d)                            # between dstar and use but not dominating (conditional)
                 out = kept
     return out
+
+
+def loop_normal_form(w):
+    """(continuation test, body) of a while loop: `while T: B` is (T, B); `while True: if X: break; B` is (not X, B)."""
+    import copy
+    test, body = w.test, w.body
+    if isinstance(test, ast.Constant) and test.value is True and body and isinstance(body[0], ast.If) and not body[0].orelse \
+            and len(body[0].body) == 1 and isinstance(body[0].body[0], ast.Break):
+        from .canon import negate
+        return negate(copy.deepcopy(body[0].test)), body[1:]
+    return test, body
